@@ -211,6 +211,20 @@ def build_cases(tier, seed, rng):
         if not legal(tr, allint):
             continue
         out.append(("INTEGER", [("base", [(a, bext, None)]), [(tr, rng.random() < 0.2, None)]], "contained-subtype"))
+    # width boundaries of the OER fixed-size and PER bit-field layouts, written as a range, as an intersection and through MIN/MAX
+    for k in (7, 8, 15, 16, 31, 32, 63):
+        for lo, hi in ((-(1 << k), (1 << k) - 1), (-(1 << k) + 1, (1 << k) - 1), (-(1 << k), (1 << k) - 2), (0, (1 << k) - 1), (0, 1 << k), (1, 1 << k)):
+            if hi > (1 << 63) - 1:
+                continue
+            form = (k + (lo < 0) + (hi & 1)) % 3
+            if form == 0:
+                tr = ("range", lo, hi)
+            elif form == 1:
+                tr = ("inter", ("range", lo, MAX), ("range", MIN, hi))
+            else:
+                tr = ("union", ("range", lo, min(lo + 1, hi)), ("range", lo, hi))
+            if legal(tr, allint):
+                out.append(("INTEGER", [[(tr, False, None)]], "width-boundary"))
     # random trees over 64-bit / 64K boundary values
     for i in range(80 if quick else 1500):
         tr = random_tree(rng, BIG_INT, rng.choice([1, 2, 2, 3]))
